@@ -66,4 +66,22 @@ def lines(repo, read, find, report):
         report["c01_param_diag_" + k] = {"value": list(g or DG_DEF[k]), "source": "extracted" if g else "DEFAULT (not located in source)"}
         g = g or DG_DEF[k]
         out.append("Definition c01_param_diag_%s : list bool := (%s)%%list.   (* diagonalmatrix.hh %s: conj, alpha, plus, assign *)" % (k, " :: ".join("true" if b else "false" for b in g) + " :: nil", k))
+    # round 6: DenseMatrixAssigner<DenseMatrix, DiagonalMatrix<field,N>>::apply — is the dense target zero-filled
+    # (`denseMatrix = field(0);`) before the diagonal is written?  (c01_assign_diag_into in coq/C01_Model.v)
+    code = re.sub(r"//[^\n]*", "", dg)
+    code = re.sub(r"/\*.*?\*/", "", code, flags=re.S)
+    m = re.search(r"struct\s+DenseMatrixAssigner\s*<\s*DenseMatrix\s*,\s*DiagonalMatrix\s*<[^>]*>\s*>\s*\{", code)
+    zf, src = True, "DEFAULT (not located in source)"
+    if m:
+        i = m.end(); depth = 1
+        while i < len(code) and depth:
+            depth += {"{": 1, "}": -1}.get(code[i], 0); i += 1
+        b = code[m.end():i]
+        loop = re.search(r"for\s*\(", b)
+        if loop and re.search(r"denseMatrix\s*\[\s*i\s*\]\s*\[\s*i\s*\]\s*=\s*rhs\.diagonal\(\)\s*\[\s*i\s*\]", b[loop.start():]):
+            zf = re.search(r"denseMatrix\s*=\s*(?:field|typename\s+DenseMatrix::field_type|K)\s*\(\s*0\s*\)\s*;", b[:loop.start()]) is not None
+            src = "extracted"
+    report["c01_param_diag_assign_zerofill"] = {"value": zf, "source": src}
+    out.append("(* diagonalmatrix.hh DenseMatrixAssigner<Dense, DiagonalMatrix>::apply: target zero-filled before the diagonal is written *)")
+    out.append("Definition c01_param_diag_assign_zerofill : bool := %s." % ("true" if zf else "false"))
     return out
